@@ -414,6 +414,8 @@ class Ctx:
         self._lits_stack.append(getattr(self, "_lits_done", 0))
         self._wit_stack = getattr(self, "_wit_stack", [])
         self._wit_stack.append(set(getattr(self, "_ne_witness", {})))
+        self._qatoms_stack = getattr(self, "_qatoms_stack", [])
+        self._qatoms_stack.append(len(getattr(self, "_q_atoms", [])))
         self.solver.push()
 
     def pop_scope(self):
@@ -424,6 +426,9 @@ class Ctx:
             del self.index_terms[r][keep:]
         self.solver.pop()
         self._lits_done = self._lits_stack.pop()
+        nq = self._qatoms_stack.pop()
+        if getattr(self, "_q_atoms", None) is not None:
+            del self._q_atoms[nq:]
         keep_w = self._wit_stack.pop()
         for kw in [kw for kw in getattr(self, "_ne_witness", {}) if kw not in keep_w]:
             del self._ne_witness[kw]
